@@ -146,18 +146,22 @@ Theorem force_single_grid b v incl : (0 < f_count b)%nat ->
 Proof.
   intros Hc. unfold force_single. replace (Nat.eqb (f_count b) 0) with false by (symmetry; apply Nat.eqb_neq; lia).
   destruct (Qcltb v (fw_edge b 0)).
-  - cbn [f_w f_shift f_tmin f_count]. repeat split; try lia.
-    destruct (Nat.eqb_spec (Z.to_nat (qceil ((fw_edge b 0 - v) / f_w b))) 0) as [E|E].
-    + rewrite E. destruct b; cbn. f_equal; lia.
+  - generalize (Z.to_nat (qceil ((fw_edge b 0 - v) / f_w b))). intros al.
+    cbn [f_w f_shift f_tmin f_count].
+    split; [reflexivity|]. split; [reflexivity|]. split; [lia|]. split; [lia|].
+    destruct (Nat.eqb_spec al 0) as [E|E].
+    + subst al. destruct b; cbn. f_equal; lia.
     + lia.
   - destruct (Qcleb (fw_edge b (f_count b)) v).
-    + set (ar := Z.to_nat (qceil ((v - fw_edge b (f_count b)) / f_w b))).
-      destruct (Qceqb _ v && negb incl) eqn:Ex; cbn [f_w f_shift f_tmin f_count].
-      * repeat split; try lia. rewrite andb_false_r. lia.
-      * repeat split; try lia. destruct (Nat.eqb_spec ar 0) as [E|E]; cbn [andb negb].
-        -- rewrite E. destruct b; cbn. f_equal; lia.
+    + generalize (Z.to_nat (qceil ((v - fw_edge b (f_count b)) / f_w b))). intros ar.
+      match goal with |- context [Qceqb ?x v && negb incl] => generalize (Qceqb x v && negb incl) end. intros ex.
+      destruct ex; cbn [f_w f_shift f_tmin f_count].
+      * split; [reflexivity|]. split; [reflexivity|]. split; [lia|]. split; [lia|]. rewrite andb_false_r. lia.
+      * split; [reflexivity|]. split; [reflexivity|]. split; [lia|]. split; [lia|].
+        destruct (Nat.eqb_spec ar 0) as [E|E]; cbn [andb negb].
+        -- subst ar. destruct b; cbn. f_equal; lia.
         -- lia.
-    + repeat split; try lia.
+    + split; [reflexivity|]. split; [reflexivity|]. split; [lia|]. split; [lia|]. reflexivity.
 Qed.
 
 (** growth never uncovers a value that was covered *)
